@@ -35,6 +35,31 @@ Proof.
   split; [apply H1|]. split; assumption.
 Qed.
 
+(* consequence: the picture of a surface of the domain never contains a split wide character
+   ([Orphan]: what the reference terminal leaves of a wide character one half of which was
+   overwritten) - every wide character that is shown is shown whole *)
+Lemma den_not_orphan : forall o h w s r c, fst (den o h w s r c) <> Orphan.
+Proof.
+  intros o h w s r c. unfold den.
+  destruct (cover_img o h w s r c) as [[r0 c0]|].
+  - destruct (img_at s r0 c0) as [[f i]|]; simpl; discriminate.
+  - destruct (left_wide o s r c); [simpl; discriminate|].
+    unfold own_glyph. destruct (gget s r c) as [x|]; [|simpl; discriminate].
+    destruct (ckind x) as [ch|i|g]; try (simpl; discriminate).
+    destruct (cw o ch =? 2); [simpl; discriminate|]. unfold cell_of.
+    destruct (N.eqb ch space); simpl; discriminate.
+Qed.
+
+Theorem C01_show_no_orphan : forall o h w s r c f,
+  oracle_ok o -> good_surface o h w s -> r < h -> c < w ->
+  gget (sgrid (show o h w s)) r c <> Some (Orphan, f).
+Proof.
+  intros o h w s r c f Hok Hs Hr Hc H.
+  destruct (C01_show_is_denotation o h w s Hok Hs) as (_ & Hg & _).
+  rewrite (Hg r c Hr Hc) in H. inversion H as [Hd].
+  apply (den_not_orphan o h w (gmap (resolve o) s) r c). rewrite Hd. reflexivity.
+Qed.
+
 (* MAIN: every finite history over Draw | Frame | SkipFrame | Clear | Renew | Resize, from a fresh
    renderer on a blank terminal that executes exactly the issued commands (a Resize replaces the
    terminal's cells by an arbitrary screen of the new size): after every Frame the terminal displays
@@ -155,6 +180,23 @@ Ltac refute :=
   [intros g Hin; simpl in Hin;
    repeat (destruct Hin as [Hin|Hin]; [inversion Hin; subst; vm_compute; reflexivity|]); contradiction
   |vm_compute; reflexivity].
+
+(* class OverlapWideImage, precisely: a surface in which an image covers one half of a wide character
+   has NO picture.  Already the repaint from scratch - the painter [show], and the renderer's own first
+   frame, which issues commands with the same effect - erases that half under the image and leaves a
+   split character (an Orphan cell), which is the picture of no surface (C01_show_no_orphan).  The
+   class therefore is "no reference exists", and on top of that the incremental result depends on the
+   history (C01_overlap_wide_image_refuted: after the image is removed, the wide character that the
+   second surface shows whole stays split). *)
+Theorem C01_overlap_wide_image_no_picture :
+  let s := [[chr 0%N 19990%N; img 1%N 0%N; cell_default]] in
+  in_domain overlap_oracle 1 3 s = true
+  /\ overlap_kinds overlap_oracle 1 3 s = (false, true, false)
+  /\ gget (sgrid (show overlap_oracle 1 3 s)) 0 0 = Some (Orphan, 0%N)
+  /\ same_display (exec_list overlap_oracle (blank_screen 1 3)
+                              (fst (frame overlap_oracle (rdraw (rnew 1 3 false) s))))
+                   (show overlap_oracle 1 3 s) = true.
+Proof. cbv zeta. repeat split; vm_compute; reflexivity. Qed.
 
 Theorem C01_overlap_images_refuted : refuted_by overlap_images_ops.
 Proof. refute. Qed.
